@@ -510,6 +510,20 @@ def _map_bins(obs, lena, r, res, idxs, cells):
               % (r["mapseq"], len(out_all), len(out_b), n_exp))
     if not ok:
         return
+    # results are independent objects: no mutable object (edges, arrays of bins, contexts) is
+    # shared between two of them or with the histogram they were made from
+    hists = [y for y in out_all + out_b
+             if gen.has_ctx(y) and isinstance(y[0], lena.structures.histogram)]
+    parts = [[y[0].edges, y[0].bins, y[1]] for y in hists]
+    for a in range(len(parts)):
+        for b in range(a + 1, len(parts)):
+            sh = identity.shared(parts[a], parts[b])
+            obs.count("map_bins_result_pairs_walked")
+            if sh:
+                obs.fail("map-bins-results-share-mutable-object",
+                         "MapBins(%r): results %d and %d share %r (a consumer changing one "
+                         "in place changes the other)" % (r["mapseq"], a, b, sh[:2]))
+                return
     later = [("second histogram of the same run", out_all[n_exp + 1:]),
              ("histogram of a second run", out_b)]
     for k, y in enumerate(out[:-1]):
@@ -771,3 +785,5 @@ RULE += (' MapBins is also given bare fill/compute elements (FillCompute(Count),
 RULE += (' Added: arguments that floats cannot hold exactly (integers above 2**53, Fractions and '
          'Decimals beside an edge); one IterateBins run over histograms with one mesh and '
          'different argument variables.')
+RULE += (' Added: identity walk over all results of one MapBins element (edges, bins, contexts): '
+         'no mutable object shared between two results.')
